@@ -5,8 +5,10 @@ Suites
   KEYNAME            isinstance(k, str) and keyRE.search(k) on str and tuple keys
   COMPARE-<fmt>      (reference records, edit script) pairs rendered as real files in a
                      temporary directory; ContentComparer.compare with an Observer appended
-                     (with / without a random filter, with / without a merge file); the
-                     model is fed the implementation's own parse
+                     (with / without a random filter, with / without a merge file, quiet level 0
+                     for two thirds and 1-4 for the rest, given to the comparer and the observer
+                     as compareProjects does: the numbers may not depend on it); the model is fed
+                     the implementation's own parse
   COMPARE-small      exhaustive pairs of short key sequences (duplicates included)
   COMPARE-junkkey    a localization key equal to the generated key of a reference Junk
   ADD-<fmt>          ContentComparer.add for a missing file
@@ -480,7 +482,7 @@ def make_filter(verdicts, file_verdict="error"):
     return flt
 
 
-def run_compare(fmt, refpath, l10npath, verdicts, merge, tables):
+def run_compare(fmt, refpath, l10npath, verdicts, merge, tables, quiet=0):
     """-> canonical result of the implementation, and the raw summary dict"""
     from compare_locales.compare.content import ContentComparer
     from compare_locales.compare.observer import Observer
@@ -502,8 +504,9 @@ def run_compare(fmt, refpath, l10npath, verdicts, merge, tables):
                   capabilities, encoding):
             merged.append((list(missing), list(skips)))
 
-    cc = RecComparer()
-    obs = RecObserver(filter=make_filter(verdicts) if verdicts is not None else None)
+    # wired as compareProjects does: the quiet level goes to the comparer and to each observer
+    cc = RecComparer(quiet=quiet)
+    obs = RecObserver(quiet=quiet, filter=make_filter(verdicts) if verdicts is not None else None)
     cc.observers.append(obs)
     name = FILE[fmt]
     ref_file = File(refpath, name, locale="xx")
@@ -516,6 +519,8 @@ def run_compare(fmt, refpath, l10npath, verdicts, merge, tables):
     js = obs.toJSON()
     det = list(js["details"].values())
     det = det[0] if det else []
+    if quiet:
+        det = []        # which details a quiet level hides is C10's subject; the numbers must not move
     summ = js["summary"].get("xx", {})
     if len(pushed) != 1 or sorted(pushed[0]) != sorted(STATS):
         stats = [-1]
@@ -568,22 +573,22 @@ def write(path, text):
         f.write(text)
 
 
-def one_pair(chk, work, fmt, ref_text, l10n_text, verdicts, merge, case=None, count=True):
+def one_pair(chk, work, fmt, ref_text, l10n_text, verdicts, merge, case=None, count=True, quiet=0):
     """run implementation + oracle on one pair; -> (request for the model, impl result, tables)"""
     from compare_locales.paths import File
     refpath, l10npath = work.paths(fmt)
     write(refpath, ref_text)
     write(l10npath, l10n_text)
     tables = Tables(fmt, refpath, l10npath, File(l10npath, FILE[fmt], locale="xx"))
-    res, summ, mirror = run_compare(fmt, refpath, l10npath, verdicts, merge, tables)
+    res, summ, mirror = run_compare(fmt, refpath, l10npath, verdicts, merge, tables, quiet)
     vt = [[canon_key(k), VCODE[v]] for k, v in (verdicts or {}).items() if v != "error"]
     req = (0, [vt, tables.ref_sx, tables.l10n_sx, tables.chk_sx, int(merge)])
     desc = {"format": fmt, "ref": ref_text, "l10n": l10n_text, "verdicts": verdicts and
-            [[k, v] for k, v in verdicts.items()], "merge": merge}
+            [[k, v] for k, v in verdicts.items()], "merge": merge, "quiet": quiet}
     if case is not None:
         desc["script"] = script_json(case)
     if count:
-        chk.count((fmt, ref_text, l10n_text, sorted(vt), merge))
+        chk.count((fmt, ref_text, l10n_text, sorted(vt), merge, quiet))
     if res[0] == 0 and not mirror:
         chk.fail("observerlist-mirror", desc, "ObserverList's own report differs from its only observer's")
     if case is not None and res[0] != 0:
@@ -605,9 +610,9 @@ def one_pair(chk, work, fmt, ref_text, l10n_text, verdicts, merge, case=None, co
         obso = [n[1] for n in det if n[0] == 3]
         want_miss = sorted(canon_key(k) for k in sets["missing"] | sets["report"])
         want_obso = sorted(canon_key(k) for k in sets["obsolete"])
-        if sorted(miss) != want_miss:
+        if not quiet and sorted(miss) != want_miss:
             bad.append("missing-set")
-        if sorted(obso) != want_obso:
+        if not quiet and sorted(obso) != want_obso:
             bad.append("obsolete-set")
         if merge and sorted(res[1][2]) != sorted(canon_key(k) for k in sets["missing"]):
             bad.append("missings-list")
@@ -624,7 +629,7 @@ def one_pair(chk, work, fmt, ref_text, l10n_text, verdicts, merge, case=None, co
     return req, res, tables, desc
 
 
-def post(tables, merge, out):
+def post(tables, merge, out, quiet=0):
     """canonicalise a model answer: junk notes by message, missings/skips only when merging
     (without a merge file the implementation never shows them)"""
     if out[0] != 0:
@@ -632,6 +637,8 @@ def post(tables, merge, out):
     stats, notes, missings, skips, det, summ = out[1]
     if not merge:
         missings, skips = [], []
+    if quiet:
+        det = []            # the model's details are those of quiet = 0
     return [0, [stats, tables.canon_model_notes(notes), missings, skips,
                 tables.canon_model_notes(det), summ]]
 
@@ -646,12 +653,15 @@ def suite_compare(chk, work, model, fmt, n, spicy):
             ks = {it[1] for it in case["ref"] + case["l10n"] if it[0] == "rec"}
             verdicts = {k: rng.choice(["error", "error", "ignore", "warning"]) for k in sorted(ks, key=str)}
         merge = rng.random() < 0.4
+        quiet = 0 if rng.random() < 0.65 else rng.randint(1, 4)
+        chk.hist("quiet_level_compare", quiet)
         ref_text = render(fmt, case["ref"], "ref")
         l10n_text = render(fmt, case["l10n"], "l10n")
-        req, res, tables, desc = one_pair(chk, work, fmt, ref_text, l10n_text, verdicts, merge, case)
+        req, res, tables, desc = one_pair(chk, work, fmt, ref_text, l10n_text, verdicts, merge, case,
+                                          quiet=quiet)
         reqs.append(req)
         impl.append(res)
-        tabs.append((tables, merge))
+        tabs.append((tables, merge, quiet))
         descs.append(desc)
         chk.hist(f"{fmt}_ref_entities", min(len(tables.ref), 9))
         for side in ("ref", "l10n"):
@@ -677,7 +687,7 @@ def suite_compare(chk, work, model, fmt, n, spicy):
         chk.sample({"suite": f"COMPARE-{fmt}", "case": descs[len(descs) // 2], "impl": impl[len(descs) // 2]})
     if model:
         outs = model.call(reqs)
-        outs = [post(t, m, o) for (t, m), o in zip(tabs, outs)]
+        outs = [post(t, m, o, q) for (t, m, q), o in zip(tabs, outs)]
         chk.correspond(f"COMPARE-{fmt}{'-spicy' if spicy else ''}", descs, impl, outs)
 
 
@@ -854,7 +864,7 @@ def gen_project(rng):
         for loc in locales:
             l10n[loc] = None if rng.random() < 0.12 else items_json(gen_l10n(rng, fmt, used, base))
         files[rel] = {"format": fmt, "ref": items_json(ref), "l10n": l10n}
-    return {"locales": locales, "files": files}
+    return {"locales": locales, "files": files, "quiet": 0 if rng.random() < 0.5 else rng.randint(1, 4)}
 
 
 def project_one(chk, work, spec):
@@ -898,7 +908,8 @@ def project_one(chk, work, spec):
     reset_junk()
     pc = TOMLParser().parse(os.path.join(root, "l10n.toml"))
     try:
-        observers = compareProjects([pc], list(locales), os.path.join(root, "l10n"))
+        observers = compareProjects([pc], list(locales), os.path.join(root, "l10n"),
+                                    quiet=spec.get("quiet", 0))
     except Exception as e:  # noqa
         chk.fail("project-raised", {"project": spec}, repr(e))
         return
@@ -909,10 +920,13 @@ def project_one(chk, work, spec):
             got = {k: summ.get(k, 0) for k in want[loc]}
             if got != want[loc]:
                 chk.fail("project-summary", {"project": spec},
-                         {"observer": name, "locale": loc, "summary": got, "expected": want[loc],
+                         {"observer": name, "locale": loc, "quiet": spec.get("quiet", 0),
+                          "summary": got, "expected": want[loc],
                           "locales in this run": sorted(locales)})
                 return
         flat = flatten(data["details"])
+        if spec.get("quiet", 0):
+            continue            # hidden details are C10's subject; the summaries do not depend on quiet
         for path, exp in sorted(want_details.items()):
             items = flat.get(path, [])
             if exp == "missingFile":
@@ -931,6 +945,7 @@ def suite_project(chk, work, n):
         spec = gen_project(chk.rng)
         chk.count(("project", json.dumps(spec, sort_keys=True)))
         chk.hist("project_locales_in_one_run", len(spec["locales"]))
+        chk.hist("quiet_level_project", spec["quiet"])
         project_one(chk, work, spec)
 
 
@@ -989,7 +1004,8 @@ def replay(chk, path):
                 if c.get("verdicts"):
                     verdicts = {(tuple(k) if isinstance(k, list) else k): v for k, v in c["verdicts"]}
                 req, res, tables, desc = one_pair(chk, work, c["format"], c["ref"], c["l10n"], verdicts,
-                                                  c["merge"], script_load(c["script"]), count=False)
+                                                  c["merge"], script_load(c["script"]), count=False,
+                                                  quiet=c.get("quiet", 0))
                 print("case", json.dumps({k: c[k] for k in ("format", "ref", "l10n", "verdicts", "merge")}))
                 print("  implementation:", res)
             elif "add_script" in c:
